@@ -6,9 +6,10 @@ from .client import *
 CRATES = ("rumqttc",)
 EXPLANATION = (
     "Static decision on the MIR of /repo's working tree (rumqttc v4 and v5 event loops): "
-    "(R-C11-first) EventLoop::clean queues MqttState::clean() before the requests still sitting in the channel and filters manual PubAck requests out of the latter; "
+    "(R-C11-first) EventLoop::clean places MqttState::clean()'s packets in FRONT of the requests still waiting in `pending` (a queue built from state.clean(), the old pending appended, stored back — never `pending.extend(state.clean())`), "
+    "queues them before the requests still sitting in the channel and filters manual PubAck requests out of the latter; "
     "next_request takes from the channel only on the `pending.is_empty()` edge and otherwise pops the front of pending; `pending.clear()` is called only in poll() under `!connack.session_present`; "
-    "pending has no other remover; "
+    "pending has no other remover (incl. append/mem::take/replace/swap taking it by &mut); "
     "(R-C11-rotation, v4) last_puback is written by the PUBACK handler and determines the rotation point MqttState::clean() splits outgoing_pub at (so the oldest unacknowledged publish comes first). "
     "NOT decided: that the rotation yields the original order across wrap-around for every ack history (index arithmetic over histories).")
 ASSUMPTIONS = ["rustc MIR construction is correct"]
@@ -28,10 +29,21 @@ def first(ctx, prog, ver):
     rule = "R-C11-first"
     pre = dict((v[0], v[2]) for v in VERSIONS)[ver]
     c = prog.one("^" + re.escape(pre) + "clean$")
-    exts = [(bb, t) for bb, t in c.calls() if callee_path(t).endswith("Extend<T>>::extend") and [x.split(".")[-1] for x in (receiver_fields(c, t) or [])][-1:] == ["pending"]]
-    st = [bb for bb, t in exts if any(s.kind == "call" and s.path.endswith("MqttState::clean") for s in flatten_src(provenance(c, t["args"][1])))]
-    ch = [bb for bb, t in exts if bb not in st]
-    if st and ch and all(dominates(c, st[0], x) for x in ch):
+    behind, merged, stores, ch_adders = clean_shape(prog, c)
+    st_point = None
+    if behind:
+        ctx.violation(rule, c.id, "unacknowledged packets queued behind unsent ones",
+                      "EventLoop::clean appends what MqttState::clean() returns BEHIND the requests still waiting in `pending`: after a second failure in the middle of a replay the packets that were already re-sent "
+                      "(older) are retransmitted after the not yet replayed ones and after user requests carried over from the first failure", site=c.loc(behind[0][1].get("sp")))
+        st_point = behind[0][0]
+    elif merged and stores and all(dominates(c, m[0], w) for m in merged for w in stores):
+        ctx.ok(rule, c.id, "state.clean() is placed in front of the requests still waiting in pending (queue built from state.clean(), old pending appended, stored back)", site=c.loc(merged[0][1].get("sp")))
+        st_point = stores[0]
+    else:
+        ctx.violation(rule, c.id, "state packets not merged into pending",
+                      "EventLoop::clean no longer queues MqttState::clean()'s packets in front of the old contents of `pending` (merged=%d, stores=%d)" % (len(merged), len(stores)), site=c.fn_loc())
+    ch = ch_adders
+    if st_point is not None and ch and all(dominates(c, st_point, x) for x in ch):
         ctx.ok(rule, c.id, "state.clean() is queued before the requests drained from the channel")
     else:
         ctx.violation(rule, c.id, "order of extends", "requests from the channel are queued ahead of (or instead of) the unacknowledged packets of the old session", site=c.fn_loc())
@@ -86,7 +98,9 @@ def first(ctx, prog, ver):
                 continue
             if name in ("pop_front", "pop_back", "clear", "drain", "remove", "truncate", "retain", "split_off", "swap_remove_back", "swap_remove_front"):
                 n += 1
-                if name == "pop_front" and "next_request" in body.id:
+                if body.id == c.id and name == "drain" and any(s_.kind == "call" and s_.term is t for m in merged for s_ in flatten_src(provenance(c, m[1]["args"][1]))):
+                    ctx.ok(rule, body.id, "pending.drain(..) feeds the merged queue that is stored back", site=body.loc(t.get("sp")))
+                elif name == "pop_front" and "next_request" in body.id:
                     ctx.ok(rule, body.id, "pending.pop_front", site=body.loc(t.get("sp")))
                 elif name == "clear" and body.id.endswith("poll::{closure#0}"):
                     # only under !connack.session_present
@@ -99,6 +113,27 @@ def first(ctx, prog, ver):
                 else:
                     ctx.violation(rule, body.id, "pending." + name, "the retransmission queue is emptied/reordered outside next_request and the no-session clear", site=body.loc(t.get("sp")))
     ctx.floor(rule, "removers of pending (%s)" % ver, n, 2)
+    # pending handed to something by `&mut` as a non-receiver argument (append / mem::take / swap ...): it is emptied there
+    for body in prog.A.values():
+        if not body.id.startswith(pre):
+            continue
+        for bb, t in body.calls():
+            if body.is_cleanup(bb) or not re.search(r"VecDeque::<T, A>::append$|mem::(take|replace|swap)$", callee_path(t)):
+                continue
+            args = t["args"][1:] if callee_path(t).endswith("append") else t["args"]
+            hit = False
+            for a in args:
+                for s_ in flatten_src(provenance(body, a)):
+                    f = getattr(s_, "fields", None)
+                    if f and f[-1].split(".")[-1].lstrip("^") == "pending":
+                        hit = True
+            if not hit:
+                continue
+            if body.id == c.id and any(m[1] is t or any(s_.kind == "call" and s_.term is t for s_ in flatten_src(provenance(c, m[1]["args"][1]))) for m in merged):
+                ctx.ok(rule, body.id, "pending is moved into the merged queue that is stored back", site=body.loc(t.get("sp")))
+            else:
+                ctx.violation(rule, body.id, "pending emptied by " + callee_path(t).rsplit("::", 1)[-1],
+                              "the retransmission queue is moved out of `pending` outside the merge in EventLoop::clean", site=body.loc(t.get("sp")))
 
 
 def rotation(ctx, prog):
